@@ -37,8 +37,8 @@ LeafTab == [
   uint64     |-> << L("0", 0), L("1", 1), L("big", 2), L("max", 3) >>,
   float32    |-> FloatTab,
   float64    |-> FloatTab,
-  \* complex tokens: z=(0,0) a=(1,2) b=(1,3) c=(2,0) d=(-1.5,5) zn=(-0,-0)
-  complex128 |-> << L("z", 1), L("a", 2), L("b", 3), L("c", 4), L("d", 0), Tw("zn", 1) >>,
+  \* complex tokens: z=(0,0) a=(1,2) b=(1,3) c=(2,0) d=(-1.5,5) zni=(0,-0) znr=(-0,0)
+  complex128 |-> << L("z", 1), L("a", 2), L("b", 3), L("c", 4), L("d", 0), Tw("zni", 1), Tw("znr", 1) >>,
   \* "" < "Aa" < "BB" < "a" < "a\"\n" < "b" < "é" < "\xff"   (bytewise)
   string     |-> << L("empty", 0), L("a", 3), L("b", 5), L("Aa", 1), L("BB", 2), L("quote", 4), L("eacute", 6), L("xff", 7) >>
 ]
@@ -50,7 +50,8 @@ Rank(b, tok) == RankOf[b][tok]
 Canon(b) == SelectSeq(LeafTab[b], LAMBDA e : ~e.twin)
 ZeroTok(b) == LeafTab[b][1].tok
 HasTwin(b) == \E i \in DOMAIN LeafTab[b] : LeafTab[b][i].twin
-ZeroTwin(b) == LeafTab[b][CHOOSE i \in DOMAIN LeafTab[b] : LeafTab[b][i].twin /\ LeafTab[b][i].rank = LeafTab[b][1].rank].tok
+TwinsOf(b, tok) == SelectSeq(LeafTab[b], LAMBDA e : e.twin /\ e.rank = Rank(b, tok) /\ e.tok # tok)
+ZeroTwin(b) == TwinsOf(b, ZeroTok(b))[1].tok
 
 (* the table as a flat sequence, exported to the harness for its sanity check *)
 LeafExport ==
@@ -184,60 +185,66 @@ FlatFrom(ss, i) == IF i > Len(ss) THEN <<>> ELSE ss[i] \o FlatFrom(ss, i + 1)
 FlatSeq(ss) == FlatFrom(ss, 1)
 Seq1(n, F(_)) == IF n = 0 THEN <<>> ELSE [i \in 1..n |-> F(i)]
 
-LeafMuts(b, tok) ==
-  LET up == UpTok(b, tok) dn == DownTok(b, tok) IN
-  (IF up = <<>> THEN <<>> ELSE << Mut(Leaf(up[1]), "leaf", "lt") >>) \o
-  (IF dn = <<>> THEN <<>> ELSE << Mut(Leaf(dn[1]), "leaf", "gt") >>)
+LeafMuts(b, tok, tw) ==
+  IF tw THEN LET ts == TwinsOf(b, tok) IN Seq1(Len(ts), LAMBDA i : Mut(Leaf(ts[i].tok), "twin", "none"))
+  ELSE LET up == UpTok(b, tok) dn == DownTok(b, tok) IN
+       (IF up = <<>> THEN <<>> ELSE << Mut(Leaf(up[1]), "leaf", "lt") >>) \o
+       (IF dn = <<>> THEN <<>> ELSE << Mut(Leaf(dn[1]), "leaf", "gt") >>)
+
+\* tw = TRUE: only the class-preserving leaf rewrites (+0 -> -0), no structural mutation
+NotTw(tw, ms) == IF tw THEN <<>> ELSE ms
 
 (* Map keys of the universe contain neither allocations nor twin tokens,   *)
 (* so two keys are the same key iff their value trees are equal.           *)
 SameKey(a, b) == a = b
 
-RECURSIVE Muts(_, _, _, _)
-Muts(env, T, v, p) ==
-  CASE T.k = "basic"  -> LeafMuts(T.b, v.tok)
-    [] T.k = "named"  -> Muts(env, T.u, v, p)
-    [] T.k = "self"   -> Muts(env, env[T.name], v, p)
+RECURSIVE Muts(_, _, _, _, _)
+Muts(env, T, v, p, tw) ==
+  CASE T.k = "basic"  -> LeafMuts(T.b, v.tok, tw)
+    [] T.k = "named"  -> Muts(env, T.u, v, p, tw)
+    [] T.k = "self"   -> Muts(env, env[T.name], v, p, tw)
     [] T.k = "ptr"    ->
-         IF v.nil THEN << Mut(PtrV(p \o "+", Zero(env, T.e)), "nil", "lt") >>
-         ELSE << Mut(NilV, "nil", "gt") >> \o
-              LiftM(Muts(env, T.e, v.v, p \o "*"), LAMBDA w : [v EXCEPT !.v = w])
+         IF v.nil THEN NotTw(tw, << Mut(PtrV(p \o "+", Zero(env, T.e)), "nil", "lt") >>)
+         ELSE NotTw(tw, << Mut(NilV, "nil", "gt") >>) \o
+              LiftM(Muts(env, T.e, v.v, p \o "*", tw), LAMBDA w : [v EXCEPT !.v = w])
     [] T.k = "slice"  ->
-         IF v.nil THEN << Mut(SliceV(p \o "+", 0, <<>>), "nil", "lt") >>
-         ELSE IF Len(v.es) = 0 THEN
+         IF v.nil THEN NotTw(tw, << Mut(SliceV(p \o "+", 0, <<>>), "nil", "lt") >>)
+         ELSE IF Len(v.es) = 0 THEN NotTw(tw,
               << Mut(NilV, "nil", "gt"),
-                 Mut([v EXCEPT !.es = <<Zero(env, T.e)>>, !.cap = @ + 1], "len", "none") >>
-         ELSE << Mut(NilV, "nil+len", "none"),
+                 Mut([v EXCEPT !.es = <<Zero(env, T.e)>>, !.cap = @ + 1], "len", "none") >>)
+         ELSE NotTw(tw,
+              << Mut(NilV, "nil+len", "none"),
                  Mut([v EXCEPT !.es = SubSeq(@, 1, Len(@) - 1)], "len", "none"),
-                 Mut([v EXCEPT !.es = Append(@, Zero(env, T.e)), !.cap = @ + 1], "len", "none") >> \o
+                 Mut([v EXCEPT !.es = Append(@, Zero(env, T.e)), !.cap = @ + 1], "len", "none") >>) \o
               FlatSeq(Seq1(Len(v.es), LAMBDA i :
-                 LiftM(Muts(env, T.e, v.es[i], p \o "/" \o ToString(i)), LAMBDA w : [v EXCEPT !.es[i] = w])))
+                 LiftM(Muts(env, T.e, v.es[i], p \o "/" \o ToString(i), tw), LAMBDA w : [v EXCEPT !.es[i] = w])))
     [] T.k = "array"  ->
          FlatSeq(Seq1(Len(v.es), LAMBDA i :
-            LiftM(Muts(env, T.e, v.es[i], p \o "/" \o ToString(i)), LAMBDA w : [v EXCEPT !.es[i] = w])))
+            LiftM(Muts(env, T.e, v.es[i], p \o "/" \o ToString(i), tw), LAMBDA w : [v EXCEPT !.es[i] = w])))
     [] T.k = "map"    ->
-         IF v.nil THEN << Mut(MapV(p \o "+", <<>>), "nil", "lt") >>
-         ELSE IF Len(v.kv) = 0 THEN
+         IF v.nil THEN NotTw(tw, << Mut(MapV(p \o "+", <<>>), "nil", "lt") >>)
+         ELSE IF Len(v.kv) = 0 THEN NotTw(tw,
               << Mut(NilV, "nil", "gt"),
-                 Mut([v EXCEPT !.kv = << [k |-> Base(env, T.key, Mode0, p \o "k+", 2, 0), v |-> Zero(env, T.e)] >>], "len", "none") >>
-         ELSE << Mut(NilV, "nil+len", "none"),
+                 Mut([v EXCEPT !.kv = << [k |-> Base(env, T.key, Mode0, p \o "k+", 2, 0), v |-> Zero(env, T.e)] >>], "len", "none") >>)
+         ELSE NotTw(tw,
+              << Mut(NilV, "nil+len", "none"),
                  Mut([v EXCEPT !.kv = SubSeq(@, 1, Len(@) - 1)], "len", "none") >> \o
               (LET nk == Base(env, T.key, Mode0, p \o "k+", 2, 0) IN
                IF \E j \in DOMAIN v.kv : SameKey(v.kv[j].k, nk) THEN <<>>
-               ELSE << Mut([v EXCEPT !.kv = Append(@, [k |-> nk, v |-> Zero(env, T.e)])], "len", "none") >>) \o
+               ELSE << Mut([v EXCEPT !.kv = Append(@, [k |-> nk, v |-> Zero(env, T.e)])], "len", "none") >>)) \o
               FlatSeq(Seq1(Len(v.kv), LAMBDA i :
-                 LiftM(Muts(env, T.e, v.kv[i].v, p \o "/" \o ToString(i)), LAMBDA w : [v EXCEPT !.kv[i].v = w]) \o
-                 LiftM(SelectSeq(AsKey(Muts(env, T.key, v.kv[i].k, p \o "k" \o ToString(i))),
+                 LiftM(Muts(env, T.e, v.kv[i].v, p \o "/" \o ToString(i), tw), LAMBDA w : [v EXCEPT !.kv[i].v = w]) \o
+                 LiftM(SelectSeq(AsKey(Muts(env, T.key, v.kv[i].k, p \o "k" \o ToString(i), tw)),
                                  LAMBDA mm : ~\E j \in DOMAIN v.kv : j # i /\ SameKey(v.kv[j].k, mm.v)),
                        LAMBDA w : [v EXCEPT !.kv[i].k = w])))
     [] T.k = "struct" -> LET e2 == Bind(env, T) IN
          FlatSeq(Seq1(Len(T.fields), LAMBDA i :
-            LiftM(Muts(e2, T.fields[i].t, v.fs[i], p \o "." \o ToString(i)), LAMBDA w : [v EXCEPT !.fs[i] = w])))
+            LiftM(Muts(e2, T.fields[i].t, v.fs[i], p \o "." \o ToString(i), tw), LAMBDA w : [v EXCEPT !.fs[i] = w])))
 
 -----------------------------------------------------------------------------
 (* Pool(T): the bounded, boundary-biased sequence of values of T.  Entry:  *)
 (*   [tag, of, kind, dir, v]   of = index of the entry this one was        *)
-(*   derived from (0 = none); kind "same" = must be structurally equal to  *)
+(*   derived from (0 = none); kind "same"/"twin" = structurally equal to    *)
 (*   entry `of`; kinds leaf/nil/len/key/nil+len = one mutation of `of`.    *)
 Entry(tag, of, kind, dir, v) == [tag |-> tag, of |-> of, kind |-> kind, dir |-> dir, v |-> v]
 
@@ -250,17 +257,20 @@ Pool(T) ==
       head == << Entry("zero", 0, "", "none", Zero(NoEnv, T)),
                  Entry("empty", 0, "", "none", Relabel(E0, "e:")),
                  Entry("base", 0, "", "none", Relabel(B0, "b:")) >>
-      bm   == MutEntries(Muts(NoEnv, T, B0, "r"), 3, "m")
-      em   == MutEntries(SelectSeq(Muts(NoEnv, T, E0, "r"), LAMBDA x : x.kind = "nil"), 2, "n")
+      bm   == MutEntries(Muts(NoEnv, T, B0, "r", FALSE), 3, "m")
+      em   == MutEntries(SelectSeq(Muts(NoEnv, T, E0, "r", FALSE), LAMBDA x : x.kind = "nil"), 2, "n")
       same == << Entry("rebuilt", 3, "same", "none", Relabel(B0, "q:")) >> \o
               (IF HasSlice(T) THEN << Entry("cap", 3, "same", "none",
                     Relabel(Base(NoEnv, T, [Mode0 EXCEPT !.extra = 2], "r", 0, 1), "c:")) >> ELSE <<>>) \o
               (IF HasMap(T) THEN << Entry("perm", 3, "same", "none",
                     Relabel(Base(NoEnv, T, [Mode0 EXCEPT !.rev = TRUE], "r", 0, 1), "p:")) >> ELSE <<>>)
       n1   == Len(head) + Len(bm) + Len(em) + Len(same)
+      FZ0  == Base(NoEnv, T, [Mode0 EXCEPT !.fz = "z"], "r", 0, 1)
       fz   == IF HasFloat(T) THEN
-                << Entry("fzp", 0, "", "none", Relabel(Base(NoEnv, T, [Mode0 EXCEPT !.fz = "z"], "r", 0, 1), "fz:")),
-                   Entry("fzn", n1 + 1, "same", "none", Relabel(Base(NoEnv, T, [Mode0 EXCEPT !.fz = "t"], "r", 0, 1), "ft:")) >>
+                << Entry("fzp", 0, "", "none", Relabel(FZ0, "fz:")),
+                   Entry("fzn", n1 + 1, "same", "none", Relabel(Base(NoEnv, T, [Mode0 EXCEPT !.fz = "t"], "r", 0, 1), "ft:")) >> \o
+                \* one float leaf at a time rewritten to its twin (+0 -> -0)
+                MutEntries(Muts(NoEnv, T, FZ0, "r", TRUE), n1 + 1, "t")
               ELSE <<>>
       n2   == n1 + Len(fz)
       sh   == IF HasSharable(T) THEN
